@@ -124,6 +124,41 @@ def r23_2(ctx, rep):
     rep.ob(R, site, "too many subscripts", many, "more subscripts than dimensions must raise")
 
 
+@SPEC.rule(
+    "R23.3",
+    "every integer subscript is range-checked: on each path from a branch taken because the subscript value is an int "
+    "(`isinstance(sl, int)`) to the place where it is stored as an index, the both-bounds test is passed on its "
+    "non-raising side",
+)
+def r23_3(ctx, rep):
+    R = "R23.3"
+    fn = ctx.func(GEN, "Generator.get_indexed_symbol", R)
+    cfg = CFG(fn, R)
+    site = GEN + ":Generator.get_indexed_symbol"
+    sinks = [x for x in cfg.stmts() if isinstance(x.ast, ast.Expr) and isinstance(x.ast.value, ast.Call) and isinstance(x.ast.value.func, ast.Attribute)
+             and x.ast.value.func.attr == "append" and x.ast.value.args and isinstance(x.ast.value.args[0], ast.Name)]
+    if not sinks:
+        raise MechanismMissing(R, "index list append not found")
+    var = sinks[0].ast.value.args[0].id
+    int_branches = [x for x in cfg.nodes if x.kind == "assume" and x.taken and ("isinstance(%s, int)" % var) in norm(x.ast)]
+    if not int_branches:
+        raise MechanismMissing(R, "no branch on isinstance(%s, int) found" % var)
+    checks = set()
+    for g in cfg.nodes:
+        if g.kind == "assume" and not g.taken:
+            lo, up = _bounds_checked(g.ast, var)
+            if lo and up and _true_branch_raises(cfg, g):
+                checks.add(g.id)
+    for k, a in enumerate(int_branches, 1):
+        w = None
+        for sk in sinks:
+            if sk.id in cfg.reachable(a.id):
+                w = w or cfg.path(a.id, sk.id, avoid=checks)
+        rep.ob(R, site, "int branch `%s`" % norm(a.ast)[:60], w is None,
+               "an integer subscript reaches the index list without passing the 1..n range check: an out-of-range constant subscript is "
+               "accepted and mapped to some element", path=cfg.describe(w) if w else "")
+
+
 # -- seeded variants ---------------------------------------------------------
 from ._mut import replace_in_func  # noqa: E402
 
@@ -159,6 +194,24 @@ def _m3(mod):
             if isinstance(n, ast.If) and "dim is None" in norm(n.test) and "sl is not None" in norm(n.test):
                 n.body = [ast.parse("sl = None").body[0]]
                 return True
+        return False
+
+    return mod if replace_in_func(mod, "Generator.get_indexed_symbol", edit) else None
+
+
+@SPEC.mutant("size-one dimension skips the check", GEN, "R23.3", "int branch")
+def _m4(mod):
+    def edit(fn):
+        for n in ast.walk(fn):
+            if isinstance(n, ast.If) and norm(n.test) == "isinstance(sl, int)":
+                new = ast.If(test=ast.parse("isinstance(sl, int) and dim == 1", mode="eval").body, body=[ast.parse("sl = 0").body[0]], orelse=[n])
+                # replace n by new inside its parent
+                for p_ in ast.walk(fn):
+                    for fld in ("body", "orelse"):
+                        b = getattr(p_, fld, None)
+                        if isinstance(b, list) and n in b and p_ is not new:
+                            b[b.index(n)] = new
+                            return True
         return False
 
     return mod if replace_in_func(mod, "Generator.get_indexed_symbol", edit) else None
